@@ -116,7 +116,9 @@ def run_batch(prop, tier, batch_seed, nruns=None, workers=None, wall_limit=None,
         for v in r["res"].get("violations", []):
             e = match_known(v, known)
             if e is not None:
-                known_hits.setdefault(e["id"], {"entry": e, "count": 0, "first_seed": r["seed"]})["count"] += 1
+                h = known_hits.setdefault(e["id"], {"entry": e, "count": 0, "first_seed": r["seed"], "runs": set()})
+                h["count"] += 1
+                h["runs"].add(r["i"])
             else:
                 unknown.append((r, v))
     try:  # developer aid: every violation of the last batch (not evidence, git-ignored)
@@ -159,7 +161,7 @@ def run_batch(prop, tier, batch_seed, nruns=None, workers=None, wall_limit=None,
     print(f"[{prop}] tier={tier} seed={batch_seed} runs={len(executed)}/{nruns} skipped={len(skipped)} workers={workers} wall={wall:.1f}s "
           f"violations={len(unknown)} known={sum(h['count'] for h in known_hits.values())} harness_errors={len(harness_errors)}", file=out)
     for kid, h in known_hits.items():
-        print(f"KNOWN-FINDING: property={prop} {kid}: {h['entry']['text']} (matched {h['count']} runs, first seed {h['first_seed']})", file=out)
+        print(f"KNOWN-FINDING: property={prop} {kid}: {h['entry']['text']} (matched {h['count']} violations in {len(h['runs'])} runs, first seed {h['first_seed']})", file=out)
     if harness_errors:
         for h in harness_errors[:5]:
             print("HARNESS-ERROR:", h, file=out)
